@@ -107,6 +107,7 @@ def audit_axioms(modules: Dict[str, List[str]], tag: str) -> Tuple[Dict[str, Lis
 
 # ---------------------------------------------------------------- driver
 CORE_DRIVER_REGIONS = ["CoreKernels", "CudaKernels", "Attrs", "Utils"]
+NO_DRIVER_OPS = {"KernelHeap", "Ctor"}     # regions whose generated code is only reasoned about, never executed by the driver
 GOOD_DRIVER = os.path.join(LEAN_DIR, ".lake", "build", "bin", "skdriver.good")
 
 
@@ -116,7 +117,11 @@ def _gen_shas() -> Dict[str, str]:
     out = {}
     for fn in sorted(os.listdir(d)) if os.path.isdir(d) else []:
         if fn.endswith(".lean"):
-            out[fn[:-5]] = hashlib.sha256(open(os.path.join(d, fn), "rb").read()).hexdigest()
+            # the generated DEFINITIONS decide what the driver computes: the header comment (it quotes the sha of the whole source file, which changes
+            # with any edit anywhere in that file) and `/-- file:lines -/` doc comments are left out of the comparison
+            txt = open(os.path.join(d, fn)).read()
+            txt = re.sub(r"/-.*?-/", "", txt, flags=re.S)
+            out[fn[:-5]] = hashlib.sha256(txt.encode()).hexdigest()
     return out
 
 
